@@ -305,10 +305,12 @@ def payment (s : St) : St :=
 
 /-! ## Reads -/
 
-/-- AEAD abstraction: with encryption a strict prefix of a ciphertext never authenticates. -/
+/-- `get_record_from_bytes`. With encryption a strict prefix of a ciphertext never authenticates (derived from the
+laws of an ideal AEAD in `Proofs/StoreCipher`), and a decryption failure yields no record (regenerated flag
+`decryptFailureSkips`; were the raw bytes handed back instead, a torn file would be served in part). -/
 def readFile (encrypt : Bool) : File → Option Read
   | .full v => some (.whole v)
-  | .torn v n => if encrypt then none else some (.part v n)
+  | .torn v n => if encrypt && Gen.Store.decryptFailureSkips then none else some (.part v n)
 
 def hdrOf : Read → Hdr
   | .whole v => hdrClass v
@@ -389,18 +391,24 @@ def scanIndex (cfg : Cfg) : List (Nat × File) → List (Nat × RType)
     | some rt => (k, rt) :: scanIndex cfg rest
     | none => scanIndex cfg rest
 
+/-- wire tag of the record kind in the header of value `v`: the harness gives chunk-class values the tag of
+`Chunk` (1) and values with `v % 3 = 1` the tags 2, 3, 5, 0, 4, 6, 7 by `(v / 3) % 7` -/
+def kindTag (v : Nat) : Nat :=
+  if v % 3 = 0 then 1 else [2, 3, 5, 0, 4, 6, 7].getD ((v / 3) % 7) 0
+
 /-- The record type `LocalSwarmCmd::PutLocalRecord`'s handler (cmd.rs) derives from the header of value `v`
-before it calls `put_verified`: Chunk ↦ `Chunk`, Scratchpad ↦ `Scratchpad`, Transaction / Register ↦
-`NonChunk(content hash)`; kinds with payment and unparsable headers are refused (`none`). The harness gives
-values with `v % 3 = 1` the kinds Transaction, Register, Scratchpad, then four with-payment kinds, by `(v / 3) % 7`. -/
+before it calls `put_verified`, by the table regenerated from its `match` on the record kind
+(`Gen.Store.localPutTable`: Chunk ↦ `Chunk`, Scratchpad ↦ `Scratchpad`, Transaction / Register ↦
+`NonChunk(content hash)`, kinds with payment refused); an unparsable header is refused (`none`). -/
 def putLocalRecordType (v : Nat) : Option RType :=
   match hdrClass v with
-  | .chunk => some .chunk
   | .bad => none
-  | .other =>
-    if (v / 3) % 7 < 2 then some (.nonChunk (.whole v))
-    else if (v / 3) % 7 = 2 then some .scratchpad
-    else none
+  | _ =>
+    match (Gen.Store.localPutTable.lookup (kindTag v)).join with
+    | some 0 => some .chunk
+    | some 1 => some .scratchpad
+    | some 2 => some (.nonChunk (.whole v))
+    | _ => none
 
 /-- `RecordStore::put` (the unverified kad path) answers `ValueTooLarge`; `put_verified` has no size test -/
 def kadPutTooLarge (cfg : Cfg) (v : Nat) : Bool :=
